@@ -4,6 +4,8 @@
 //   vec.norms <v> <p>                   norm_1 norm_2 norm_p(p) norm_inf (last: panics on empty) [f64]
 //   vec.normlaws <u> <v> <c> <p>        the four norms of u, v, u+v, u*c                        [f64]
 //   vec.cx <v>                          conj, real, abs (Signed), norm_inf (last)              [cplx]
+//   vec.n1laws <u> <v> <c>              dot(u,v), then norm_1 of u, v, u+v, u*c (generic code)  [rat | f64 | cplx]
+//   vec.cnormlaws <u> <v> <c>           dot(u,v), then norm_1 and norm_inf of u, v, u+v, u*c    [cplx]
 //   vec.linspace <a> <b> <n>   vec.powspace <a> <b> <n> <p>   vec.scale_l <s> <v>              [f64]
 //   vec.ctor <n> <x> <v>                new/zeros/ones/empty/create/clone                      [any]
 //   vec.random <n>                      size and number of elements in [0,1)                   [f64]
@@ -147,6 +149,22 @@ pub fn run<T: VX>(kind: &str, a: &mut Args, out: &mut Out) {
             out.v(&v.conj()); out.v(&v.real()); out.v(&v.abs());
             check_same(&v, &snap, "conj/real/abs");
             out.f(v.norm_inf());
+        }
+        "vec.n1laws" => {
+            let u = a.v::<T>(); let v = a.v::<T>(); let c = a.s::<T>();
+            let (su, sv) = (u.clone(), v.clone());
+            let s = &u + &v; let cu = u.clone() * c;
+            let d = u.dot(&v); out.s(&d);
+            for w in [&u, &v, &s, &cu] { let r = w.norm_1(); out.s(&r); }
+            check_same(&u, &su, "n1laws"); check_same(&v, &sv, "n1laws");
+        }
+        "vec.cnormlaws" => {
+            let u = a.v::<Cmplx>(); let v = a.v::<Cmplx>(); let c = a.s::<Cmplx>();
+            let (su, sv) = (u.clone(), v.clone());
+            let s = &u + &v; let cu = u.clone() * c;
+            let d = u.dot(&v); out.s(&d);
+            check_same(&u, &su, "cnormlaws"); check_same(&v, &sv, "cnormlaws");
+            for w in [&u, &v, &s, &cu] { let r = w.norm_1(); out.s(&r); out.f(w.norm_inf()); }
         }
         "vec.linspace" => { let (x, y) = (a.f64(), a.f64()); let n = a.usize(); out.v(&Vector::<f64>::linspace(x, y, n)); }
         "vec.powspace" => { let (x, y) = (a.f64(), a.f64()); let n = a.usize(); let p = a.f64(); out.v(&Vector::<f64>::powspace(x, y, n, p)); }
